@@ -218,3 +218,46 @@ Section Inv.
       destruct (loop w h dz minz ord fuel (S j) (sched dz (S j)) pts' outs'); auto. lia.
   Qed.
 End Inv.
+
+(* z_total: under (i) the schedule is at or below min z from step K to K + n + 2 and (ii) no row survives its own
+   band filter, the main loop stops within K + n + 2 rounds, for every processing order *)
+Theorem z_total_loop {N : Num} (w h dz minz : T N) ord (rows : list (@row N)) K :
+  (forall j l, Permutation (ord j l) l) ->
+  sched_ok dz minz K (length rows + 2) = true -> self_removed w h rows = true ->
+  match loop w h dz minz ord (K + length rows + 2) 0 (ofZ 3) rows [] with
+  | RFuel => False
+  | RErr => True
+  | RDone _ k => k <= K + length rows + 2
+  end.
+Proof.
+  intros Hord Hs Hr.
+  assert (Hsched : forall j, K <= j <= K + length rows + 2 -> (sched dz j <=?! minz) = true).
+  { intros j Hj. unfold sched_ok in Hs. rewrite forallb_forall in Hs. apply Hs. apply in_seq. lia. }
+  assert (HS : SelfRem w h rows).
+  { intros r Hin. unfold self_removed in Hr. rewrite forallb_forall in Hr. specialize (Hr r Hin).
+    apply negb_true_iff in Hr. exact Hr. }
+  pose proof (loop_total w h dz minz ord Hord K (K + length rows + 2) Hsched (K + length rows + 2) 0 rows [] HS
+                ltac:(lia) ltac:(lia)) as H.
+  change (sched dz 0) with (@ofZ N 3) in H.
+  destruct (loop w h dz minz ord (K + length rows + 2) 0 (ofZ 3) rows []); auto. lia.
+Qed.
+
+(* z_total for the value of zmethod.knees: with fuel K + n + 2 the model never runs out of fuel, and the number of
+   rounds it reports is at most K + n + 2 *)
+Theorem z_total {N : Num} ord (rows : list (@row N)) dx dy dz xmax yr p K :
+  (forall j l, Permutation (ord j l) l) ->
+  params rows dx dy xmax yr = Some (Some p) ->
+  sched_ok dz (zp_minz p) K (length rows + 2) = true -> self_removed (zp_w p) (zp_h p) rows = true ->
+  match knees ord (K + length rows + 2) rows dx dy dz xmax yr with
+  | RFuel => False
+  | RErr => True
+  | RDone _ k => k <= K + length rows + 2
+  end.
+Proof.
+  intros Hord Hp Hs Hr. pose proof (z_total_loop _ _ dz _ ord rows K Hord Hs Hr) as H.
+  unfold knees, getPoints. rewrite Hp.
+  destruct (loop (zp_w p) (zp_h p) dz (zp_minz p) ord (K + length rows + 2) 0 (ofZ 3) rows []) as [| |st k];
+    cbn [finish_res knees_of]; auto.
+  destruct (finish (snd st)); cbn [knees_of]; auto.
+  destruct (map_index (map rx rows) (map fst l)); auto.
+Qed.
